@@ -276,6 +276,12 @@ pub async fn listener_scenario(pki: Arc<Pki>, dict: Arc<Dictionary>, spec: Vec<S
                                     let _ = p.write_all(&[1, 0, 0, 2, 0, 0, 0, 0]).await;
                                     keep.push(p);
                                 }
+                                "stall_announce_max" => {
+                                    // announces the largest frame the transport admits (1 MiB), delivers the header, stalls:
+                                    // what one connection may hold back must not be taken from a budget shared with others
+                                    let _ = p.write_all(&[1, 0x10, 0, 0, 0x80, 0, 1, 16, 0, 0, 0, 4, 0, 0, 0, 1, 0, 0, 0, 2]).await;
+                                    keep.push(p);
+                                }
                                 "stall_midframe" => {
                                     let f = frame(&request(&dict, 0xbad0_0002, 3, "faulty-stall"));
                                     let _ = p.write_all(&f[..f.len() / 2]).await;
